@@ -251,7 +251,7 @@ def main(argv=None):
                     "by construction; each stands for every input satisfying its path condition); non-trivial = at least one "
                     "assertion was discharged by the solver on that path",
             "programs": len(obligations), "disagreements_checked": tot["replayed"],
-            "states": max(tot["paths"], 0), "transitions": max(tot["decisions"], 0),
+            "states": max(tot["paths"], 0), "transitions": max(tot["decisions"], tot["paths"], 0),
             "traces_validated_against_impl": tot["witnesses"],
             "samples": samples[:12] or [{"note": "no path explored"}],
             "exhaustive": all(r.get("exhausted") for r in results.values()) and not problems,
